@@ -78,6 +78,8 @@ def observe_rope(src):
             with c20_sweep.time_limit():
                 return f()
         except Exception as e:  # noqa: BLE001
+            if not os.path.isfile(os.path.join(c15._project_dir, "d1", "d2", "d3", "mod.py")):
+                raise c20_sweep.ScratchGone(c15._project_dir)
             sig = c20_sweep.signature_of(entry, e, e.__traceback__, src, o)
             out["exc"].append({"kind": "sweep", "entry": entry, "text": src, "offset": o, "maxfixes": 1,
                                "truncated": False, "with_resource": True, "focus": sig,
@@ -132,6 +134,8 @@ def observe_definitions(src, tree):
                 fd = (loc.lineno, src[loc.region[0]:loc.region[1]] if ours else None, ours)
             out.append((o, node, line, same, None, fd))
         except Exception as e:  # noqa: BLE001
+            if not os.path.isfile(os.path.join(c15._project_dir, "d1", "d2", "d3", "mod.py")):
+                raise c20_sweep.ScratchGone(c15._project_dir)
             sig = c20_sweep.signature_of(entry, e, e.__traceback__, src, o)
             out.append((o, node, None, True, {"kind": "sweep", "entry": entry, "text": src,
                                               "offset": o, "maxfixes": 1, "truncated": False,
@@ -288,7 +292,16 @@ HELPERS = {c20_gen.HELPER_MODULE: c20_gen.HELPER_SOURCE}
 
 
 def check_module(args):
-    """worker: (index, src, stream, do_sweep, sweep_full) -> result dict (picklable)"""
+    """worker: (index, src, stream, do_sweep, sweep_full) -> result dict (picklable).  Started again when the scratch
+    project directory was removed from outside while the module was being observed."""
+    for attempt in range(3):
+        res = _check_module(args)
+        if "ScratchGone" not in (res.get("crash") or "") or attempt == 2:
+            return res
+    return res
+
+
+def _check_module(args):
     idx, src, stream, do_sweep, sweep_full = args
     res = {"idx": idx, "src": src, "stream": stream, "counts": {}, "problems": [], "inherited": {},
            "exceptions": [], "case": None, "sweep": None, "model_domain": False, "note": None}
@@ -630,6 +643,8 @@ FIXED = [
     "def fo(al):\n    (wa := al)\n    an: int\n    an = wa\n    return wa, an\n",
     "fo = (\n    1)\nfor al in (\n        fo):\n    pass\nprint(fo, al)\n",
     "sa = ''\nisa = sa.isa\nprint(sa.isa, isa)\n",
+    # the dot of a float literal followed by a keyword is no attribute access (repo commit 06a46a8)
+    "xa = 1 if 3. else 2\nal = (xa) if 3.  in [xa] else 4.\nisa = al.real if 2. is xa else xa\n",
     # keyword-argument proposals for a callee that is statically known
     "def go(al, alp=0, *va, **kw):\n    return al\nres = go(1, alp=2)\nres = go(al=3)\n",
     # a try statement that runs to the end of the file (the repair path patches a dangling try:)
@@ -644,10 +659,10 @@ def run(ctx):
                 "query of code_assist, one definition lookup, or one swept call; non-trivial = an undotted position on "
                 "a code line whose typed prefix is non-empty or whose holding scope is not the module; distinct by "
                 "(module text, offset, later_locals)")
-    n_main = ctx.scale(14, 100)
-    n_plus = ctx.scale(5, 40)
+    n_main = ctx.scale(10, 100)
+    n_plus = ctx.scale(4, 40)
     size = ctx.scale(7, 10)
-    sweep_all = ctx.scale(14, 60)        # generated main modules that get the exhaustive sweep (+ the fixed ones)
+    sweep_all = ctx.scale(10, 60)        # generated main modules that get the exhaustive sweep (+ the fixed ones)
     sources = [(s, "fixed") for s in FIXED]
     for _ in range(n_main):
         s = c20_gen.gen_source(ctx.rng, (), size)
@@ -899,9 +914,15 @@ def run_sessions(ctx):
         obj = gen_session(ctx.rng)
         ctx.count("sessions")
         ctx.case(("session", obj["use"], tuple(obj["versions"])), nontrivial=True)
-        try:
-            dev = run_session(obj)
-        except Exception as e:  # noqa: BLE001
-            dev = "exception %r" % (e,)
+        dev = None
+        for attempt in range(2):
+            try:
+                dev = run_session(obj)
+                break
+            except (FileNotFoundError, OSError):
+                dev = "the scratch directory vanished twice"      # removed from outside: once more
+            except Exception as e:  # noqa: BLE001
+                dev = "exception %r" % (e,)
+                break
         if dev:
             ctx.violation(dict(obj, focus="session", observed=dev), "C20 session: " + dev[:300])
